@@ -856,6 +856,13 @@ Proof.
   destruct (mod_eq_diff 256 (a - c) (a' - c) ltac:(lia) ltac:(congruence)) as [k Hk]. lia.
 Qed.
 
+Lemma mod256_cancel2 a a' c d : 0 <= a < 256 -> 0 <= a' < 256 ->
+  (a - c - d) mod 256 = 0 -> (a' - c - d) mod 256 = 0 -> a = a'.
+Proof.
+  intros Ha Ha' H H'.
+  destruct (mod_eq_diff 256 (a - c - d) (a' - c - d) ltac:(lia) ltac:(congruence)) as [k Hk]. lia.
+Qed.
+
 Lemma mod256_cancel_add a a' c : 0 <= a < 256 -> 0 <= a' < 256 ->
   (a + c) mod 256 = 0 -> (a' + c) mod 256 = 0 -> a = a'.
 Proof.
@@ -914,9 +921,9 @@ Proof.
   apply validate_file_clean in HV. destruct HV as (C1 & C2 & C3 & _).
   unfold file_hs in C1. cbn [file_hdr_of file_hdr_gen f_attr f_size3 f_ext] in C1, C2, C3.
   assert (E3 : rd 20 3 fb' = pol2 + 256 * (pol2 + 256 * (pol2 + 0))).
-  { unfold rd. rewrite (all_eq_sub pol2 fb' 20 3 Hall) by lia. reflexivity. }
+  { unfold rd. change (Z.of_nat 3) with 3. rewrite (all_eq_sub pol2 fb' 20 3 Hall) by lia. reflexivity. }
   assert (E1 : rd 19 1 fb' = pol2 + 0).
-  { unfold rd. rewrite (all_eq_sub pol2 fb' 19 1 Hall) by lia. reflexivity. }
+  { unfold rd. change (Z.of_nat 1) with 1. rewrite (all_eq_sub pol2 fb' 19 1 Hall) by lia. reflexivity. }
   assert (P : pol2 = 255) by lia. subst pol2.
   assert (Hnl : attr_large (rd 19 1 fb) = false).
   { destruct (attr_large (rd 19 1 fb)); [|reflexivity].
@@ -961,9 +968,10 @@ Proof.
     destruct (zlen fb' <? 32) eqn:E32.
     - assert (Hl : attr_large (rd 19 1 fb) = false).
       { destruct (attr_large (rd 19 1 fb)); [lia|reflexivity]. }
-      rewrite Hl in Hj32.
+      rewrite Hl in Hj32, Hj.
+      assert (J23 : 0 <= j < 23).
+      { pose proof (single_change_range _ _ _ HS). destruct Hj as [?|[?|[? _]]]; [lia|lia|discriminate]. }
       eapply (short_marker_impossible fb fb' j pol2 nv); eauto; try lia.
-      pose proof (single_change_range _ _ _ HS). lia.
     - apply Hfm. split; [exact Es|]. split; [lia|]. apply Z.eqb_eq. exact FM'. }
   cbn [fst]. eexists; split; [reflexivity|].
   destruct (validate_file_total true (file_hdr_of fb' nv') (sub 0 (file_ext_of fb') fb')) as [l Hl].
@@ -999,7 +1007,370 @@ Proof.
     as (p & x & y & s & Eb & Eb' & _ & Hne & Hx & Hy).
   rewrite Eb in C5. rewrite Eb' in D5.
   apply (sum8_single_change p x y s Hx Hy Hne).
-  eapply mod256_cancel; [apply sum8_range|apply sum8_range| |]; [|exact D5].
-  replace (sum8 (p ++ x :: s) - (rd 17 1 fb + rd 23 1 fb)) with (sum8 (p ++ x :: s) - rd 17 1 fb - rd 23 1 fb) by lia.
-  exact C5.
+  eapply mod256_cancel2; [apply sum8_range|apply sum8_range|exact C5|exact D5].
+Qed.
+
+(* a change of the body-checksum byte or of a body byte leaves the parsed header otherwise intact *)
+Lemma nonhdr_change_inv nvar rs nvar2 rs2 pol pol2 fb fb' j nv kids pol' r :
+  file_body nvar rs pol fb =
+    Ok (Some (NFile (file_hdr_of fb nv) (sub 0 (file_ext_of fb) fb) kids), pol') ->
+  validate_file (file_hdr_of fb nv) (sub 0 (file_ext_of fb) fb) = Ok [] ->
+  single_change fb j fb' -> (j = 17 \/ (if attr_large (rd 19 1 fb) then 32 else 24) <= j) ->
+  file_body nvar2 rs2 pol2 fb' = Ok r ->
+  rd 19 1 fb' = rd 19 1 fb /\ rd 20 3 fb' = rd 20 3 fb /\ rd 23 1 fb' = rd 23 1 fb /\
+  file_ext_of fb' = file_ext_of fb /\ (j <> 17 -> rd 17 1 fb' = rd 17 1 fb) /\
+  exists nv' kids' pol'',
+    r = (Some (NFile (file_hdr_of fb' nv') (sub 0 (file_ext_of fb) fb') kids'), pol'').
+Proof.
+  intros HP HV HS Hj HP'.
+  destruct (file_body_inv _ _ _ _ _ HP) as (L24 & [[_ K]|(FM & L32 & Lext & _)]); [discriminate|].
+  pose proof (single_change_len _ _ _ HS) as Len.
+  apply validate_file_clean in HV. destruct HV as (_ & _ & C3 & _).
+  cbn [file_hdr_of file_hdr_gen f_attr f_size3] in C3.
+  assert (J0 : 0 <= j) by (pose proof (single_change_range _ _ _ HS); lia).
+  assert (J24 : j = 17 \/ 24 <= j) by (destruct Hj; [auto|destruct (attr_large _); lia]).
+  assert (J32 : rd 20 3 fb = 16777215 -> j = 17 \/ 32 <= j).
+  { intros E. apply C3 in E. rewrite E in Hj. destruct Hj; [auto|lia]. }
+  assert (EA : rd 19 1 fb' = rd 19 1 fb).
+  { eapply single_change_rd_same; [exact HS|lia|]. destruct J24; [right|left]; lia. }
+  assert (ES : rd 20 3 fb' = rd 20 3 fb).
+  { eapply single_change_rd_same; [exact HS|lia|]. destruct J24; [right|left]; lia. }
+  assert (ET : rd 23 1 fb' = rd 23 1 fb).
+  { eapply single_change_rd_same; [exact HS|lia|]. destruct J24; [right|left]; lia. }
+  assert (E8 : rd 20 3 fb = 16777215 -> rd 24 8 fb' = rd 24 8 fb).
+  { intros E. eapply single_change_rd_same; [exact HS|lia|]. destruct (J32 E); [right|left]; lia. }
+  assert (EX : file_ext_of fb' = file_ext_of fb).
+  { unfold file_ext_of. rewrite ES. destruct (rd 20 3 fb =? 16777215) eqn:E; [|reflexivity].
+    apply E8. lia. }
+  assert (EK : j <> 17 -> rd 17 1 fb' = rd 17 1 fb).
+  { intros Hn. eapply single_change_rd_same; [exact HS|lia|]. left. destruct J24; lia. }
+  repeat (split; [assumption|]).
+  destruct (file_body_inv _ _ _ _ _ HP') as (L24' & [[FM' _]|(_ & _ & _ & nv' & kids' & pol'' & ->)]).
+  - exfalso. unfold is_free_marker in FM, FM'. rewrite ES in FM'.
+    apply andb_true_iff in FM' as [Es FM']. rewrite Es in FM. cbn [andb] in FM.
+    assert (E : rd 20 3 fb = 16777215) by lia.
+    specialize (L32 E). rewrite Len in FM'.
+    replace (zlen fb <? 32) with false in FM, FM' by lia.
+    rewrite (E8 E) in FM'. congruence.
+  - rewrite EX. eauto.
+Qed.
+
+(* C09_body_detects, local form *)
+Lemma file_body_detects_local nvar rs nvar2 rs2 pol pol2 fb fb' j h fbuf kids pol' :
+  file_body nvar rs pol fb = Ok (Some (NFile h fbuf kids), pol') ->
+  validate_file h fbuf = Ok [] -> attr_checksum (f_attr h) = true ->
+  single_change fb j fb' -> file_hs h <= j < f_ext h ->
+  forall r, file_body nvar2 rs2 pol2 fb' = Ok r -> exists f', fst r = Some f' /\ reports f'.
+Proof.
+  intros HP HV Hck HS Hj r HP'.
+  destruct (file_body_inv _ _ _ _ _ HP) as (L24 & [[_ K]|(FM & L32 & Lext & nv & kids0 & pol0 & K)]);
+    [discriminate|].
+  injection K as -> -> -> ->.
+  unfold file_hs in Hj. cbn [file_hdr_of file_hdr_gen f_attr f_ext] in Hj, Hck.
+  destruct (nonhdr_change_inv _ _ _ _ _ _ _ _ _ _ _ _ _ HP HV HS ltac:(right; lia) HP')
+    as (EA & ES & ET & EX & EK & nv' & kids' & pol'' & ->).
+  cbn [fst]. eexists; split; [reflexivity|].
+  destruct (validate_file_total true (file_hdr_of fb' nv') (sub 0 (file_ext_of fb) fb')) as [l Hl].
+  destruct l as [|e l]; [|eapply reports_file_self; [exact Hl|discriminate]].
+  exfalso. apply validate_file_clean in Hl. apply validate_file_clean in HV.
+  destruct HV as (C1 & C2 & _ & _ & _ & _ & C7). destruct Hl as (D1 & D2 & _ & _ & _ & _ & D7).
+  unfold file_hs in *. cbn [file_hdr_of file_hdr_gen f_attr f_ext f_ckf] in *.
+  rewrite EA in D1, D7. rewrite (EK ltac:(destruct (attr_large _); lia)) in D7.
+  specialize (C7 Hck). specialize (D7 Hck).
+  set (HSZ := if attr_large (rd 19 1 fb) then 32 else 24) in *.
+  assert (HSZ0 : 24 <= HSZ <= 32) by (subst HSZ; destruct (attr_large _); lia).
+  pose proof (single_change_len _ _ _ HS) as Len.
+  rewrite zlen_sub0 in C7, D7 by lia.
+  rewrite sub_sub0 in C7, D7 by lia.
+  destruct (single_change_sub fb j fb' HSZ (file_ext_of fb - HSZ) HS ltac:(lia) ltac:(lia))
+    as (p & x & y & s & Eb & Eb' & _ & Hne & Hx & Hy).
+  rewrite Eb in C7. rewrite Eb' in D7.
+  apply (sum8_single_change p x y s Hx Hy Hne).
+  eapply mod256_cancel_add; [apply sum8_range|apply sum8_range|exact C7|exact D7].
+Qed.
+
+(* C09_bodysum_detects, local form *)
+Lemma file_bodysum_detects_local nvar rs nvar2 rs2 pol pol2 fb fb' h fbuf kids pol' :
+  file_body nvar rs pol fb = Ok (Some (NFile h fbuf kids), pol') ->
+  validate_file h fbuf = Ok [] -> bytes_ok fb = true ->
+  single_change fb 17 fb' ->
+  forall r, file_body nvar2 rs2 pol2 fb' = Ok r -> exists f', fst r = Some f' /\ reports f'.
+Proof.
+  intros HP HV Hok HS r HP'.
+  destruct (file_body_inv _ _ _ _ _ HP) as (L24 & [[_ K]|(FM & L32 & Lext & nv & kids0 & pol0 & K)]);
+    [discriminate|].
+  injection K as -> -> -> ->.
+  destruct (nonhdr_change_inv _ _ _ _ _ _ _ _ _ _ _ _ _ HP HV HS ltac:(left; reflexivity) HP')
+    as (EA & ES & ET & EX & _ & nv' & kids' & pol'' & ->).
+  cbn [fst]. eexists; split; [reflexivity|].
+  destruct (validate_file_total true (file_hdr_of fb' nv') (sub 0 (file_ext_of fb) fb')) as [l Hl].
+  destruct l as [|e l]; [|eapply reports_file_self; [exact Hl|discriminate]].
+  exfalso. apply validate_file_clean in Hl. apply validate_file_clean in HV.
+  destruct HV as (C1 & C2 & _ & _ & _ & C6 & C7). destruct Hl as (D1 & D2 & _ & _ & _ & D6 & D7).
+  unfold file_hs in *. cbn [file_hdr_of file_hdr_gen f_attr f_ext f_ckf] in *.
+  rewrite EA in D1, D6, D7.
+  assert (EK : rd 17 1 fb' <> rd 17 1 fb) by (eapply single_change_rd_diff; [exact HS|lia|lia]).
+  pose proof (single_change_ok _ _ _ HS Hok) as Hok'.
+  assert (R : 0 <= rd 17 1 fb < 256).
+  { unfold rd. pose proof (le_dec_bound (sub 17 (Z.of_nat 1) fb) (bytes_ok_sub _ _ _ Hok)) as B.
+    rewrite zlen_sub in B by lia. exact B. }
+  assert (R' : 0 <= rd 17 1 fb' < 256).
+  { unfold rd. pose proof (le_dec_bound (sub 17 (Z.of_nat 1) fb') (bytes_ok_sub _ _ _ Hok')) as B.
+    pose proof (single_change_len _ _ _ HS).
+    rewrite zlen_sub in B by lia. exact B. }
+  destruct (attr_checksum (rd 19 1 fb)) eqn:Hck.
+  - specialize (C7 eq_refl). specialize (D7 eq_refl).
+    set (HSZ := if attr_large (rd 19 1 fb) then 32 else 24) in *.
+    assert (HSZ0 : 24 <= HSZ <= 32) by (subst HSZ; destruct (attr_large _); lia).
+    pose proof (single_change_len _ _ _ HS) as Len.
+    rewrite zlen_sub0 in C7, D7 by lia.
+    rewrite sub_sub0 in C7, D7 by lia.
+    rewrite (single_change_sub_same fb 17 fb' HSZ _ HS) in D7 by lia.
+    apply EK. rewrite Z.add_comm in C7, D7.
+    eapply mod256_cancel_add; [exact R'|exact R|exact D7|exact C7].
+  - specialize (C6 eq_refl). specialize (D6 eq_refl). congruence.
+Qed.
+
+(* ---- E.3 files inside a volume ---- *)
+
+(* the k-th file of a parsed volume and its offset in the volume: files sit at 8-aligned offsets,
+   each after the end of its predecessor, the first at the volume's data offset *)
+Fixpoint file_at (off : Z) (files : list node) (k : nat) : option (node * Z) :=
+  match files with
+  | [] => None
+  | f :: r => let o := align8 off in
+              match k with
+              | O => Some (f, o)
+              | S k' => file_at (o + file_ext f) r k'
+              end
+  end.
+
+Definition file_clean (f : node) : Prop :=
+  match f with NFile h b _ => validate_file h b = Ok [] | _ => False end.
+
+Lemma align8_ge v : v <= align8 v.
+Proof.
+  unfold align8, align. pose proof (Z.div_mod (v + 8 - 1) 8 ltac:(lia)).
+  pose proof (Z.mod_pos_bound (v + 8 - 1) 8 ltac:(lia)). lia.
+Qed.
+
+Lemma file_at_ge files : forall off k f o, (forall g, In g files -> 0 <= file_ext g) ->
+  file_at off files k = Some (f, o) -> off <= o.
+Proof.
+  induction files as [|g files IH]; intros off k f o Hpos; cbn [file_at]; [discriminate|].
+  destruct k as [|k].
+  - intros [= _ <-]. apply align8_ge.
+  - intros H. apply IH in H; [|intros; apply Hpos; right; auto].
+    pose proof (align8_ge off). specialize (Hpos g (or_introl eq_refl)). lia.
+Qed.
+
+Lemma file_clean_ext f : file_clean f -> 24 <= file_ext f.
+Proof.
+  destruct f as [| h b kids | |]; cbn [file_clean file_ext]; try contradiction.
+  intros H. apply validate_file_clean in H. destruct H as (C1 & C2 & _).
+  unfold file_hs in C1. destruct (attr_large _); lia.
+Qed.
+
+Lemma zlen_sub_tail (data : bytes) o len : 0 <= o -> o <= len -> len <= zlen data ->
+  zlen (sub o (len - o) data) = len - o.
+Proof. intros. apply zlen_sub; lia. Qed.
+
+(* the parser call that produced the k-th file *)
+Lemma files_loop_at rf n : forall data len pol off files pol' fs k f o,
+  files_loop rf n data len pol off = Ok (files, pol', fs) ->
+  (forall g, In g files -> 0 <= file_ext g) ->
+  file_at off files k = Some (f, o) ->
+  exists polk polk', rf polk (sub o (len - o) data) = Ok (Some f, polk') /\ o + 24 <= len.
+Proof.
+  induction n as [|n IH]; intros data len pol off files pol' fs k f o; cbn [files_loop]; [discriminate|].
+  destruct (off + 24 <=? len) eqn:E1; [|intros H; apply Ok_inj in H; injection H as <- _ _; discriminate].
+  destruct (len <? align8 off + 24) eqn:E2; [intros H; apply Ok_inj in H; injection H as <- _ _; discriminate|].
+  destruct (rf pol (sub (align8 off) (len - align8 off) data)) as [[fo pol1]| | |] eqn:EF;
+    cbn [bind]; try discriminate.
+  destruct fo as [f0|]; [|intros H; apply Ok_inj in H; injection H as <- _ _; discriminate].
+  destruct (file_ext f0 =? 0) eqn:E0; [discriminate|].
+  destruct (files_loop rf n data len pol1 (align8 off + file_ext f0)) as [[[r0 p0] fs0]| | |] eqn:ER;
+    cbn [bind]; try discriminate.
+  intros H Hpos. apply Ok_inj in H. injection H as <- <- <-. cbn [file_at].
+  destruct k as [|k].
+  - intros [= <- <-]. exists pol, pol1. split; [exact EF|lia].
+  - intros Hat. eapply IH; [exact ER| |exact Hat]. intros; apply Hpos; right; auto.
+Qed.
+
+Lemma files_loop_detect nvar rs n : forall data data' len pol off files pol' fs k f o i,
+  files_loop (file_body nvar rs) n data len pol off = Ok (files, pol', fs) ->
+  Forall file_clean files ->
+  file_at off files k = Some (f, o) ->
+  single_change data i data' -> o <= i -> 0 <= off -> len <= zlen data ->
+  (forall pol2 r, file_body nvar rs pol2 (sub o (len - o) data') = Ok r ->
+                  exists f', fst r = Some f' /\ reports f') ->
+  forall r, files_loop (file_body nvar rs) n data' len pol off = Ok r ->
+  exists f', In f' (fst (fst r)) /\ reports f'.
+Proof.
+  induction n as [|n IH]; intros data data' len pol off files pol' fs k f o i; cbn [files_loop];
+    [discriminate|].
+  destruct (off + 24 <=? len) eqn:E1; [|intros H; apply Ok_inj in H; injection H as <- _ _; discriminate].
+  destruct (len <? align8 off + 24) eqn:E2; [intros H; apply Ok_inj in H; injection H as <- _ _; discriminate|].
+  destruct (file_body nvar rs pol (sub (align8 off) (len - align8 off) data)) as [[fo pol1]| | |] eqn:EF;
+    cbn [bind]; try discriminate.
+  destruct fo as [f0|]; [|intros H; apply Ok_inj in H; injection H as <- _ _; discriminate].
+  destruct (file_ext f0 =? 0) eqn:E0; [discriminate|].
+  destruct (files_loop (file_body nvar rs) n data len pol1 (align8 off + file_ext f0))
+    as [[[r0 p0] fs0]| | |] eqn:ER; cbn [bind]; try discriminate.
+  intros H Hcl Hat HS Hoi Hoff Hlen Hloc r H'. apply Ok_inj in H. injection H as <- <- <-.
+  cbn [file_at] in Hat. pose proof (align8_ge off) as Ha.
+  inversion Hcl as [|? ? Hc0 Hcr]; subst.
+  destruct k as [|k].
+  - injection Hat as <- <-.
+    destruct (file_body nvar rs pol (sub (align8 off) (len - align8 off) data')) as [[fo' pol1']| | |] eqn:EF';
+      cbn [bind] in H'; try discriminate.
+    destruct (Hloc _ _ EF') as (f' & Hf' & Hr'). cbn [fst] in Hf'. subst fo'.
+    destruct (file_ext f' =? 0); [discriminate|].
+    destruct (files_loop (file_body nvar rs) n data' len pol1' (align8 off + file_ext f'))
+      as [[[r' p'] fs']| | |]; cbn [bind] in H'; try discriminate.
+    apply Ok_inj in H'. subst r. cbn [fst]. exists f'. split; [left; reflexivity|exact Hr'].
+  - assert (Hpos : forall g, In g r0 -> 0 <= file_ext g).
+    { intros g Hg. rewrite Forall_forall in Hcr. pose proof (file_clean_ext g (Hcr g Hg)). lia. }
+    pose proof (file_at_ge r0 _ _ _ _ Hpos Hat) as Hge.
+    pose proof (file_clean_ext f0 Hc0) as He0.
+    (* the first file is parsed as before *)
+    assert (EF'' : file_body nvar rs pol (sub (align8 off) (len - align8 off) data') = Ok (Some f0, pol1)).
+    { destruct f0 as [| h0 b0 k0 | |]; cbn [file_clean] in Hc0; try contradiction.
+      cbn [file_ext] in *.
+      pose proof Hc0 as Hc. apply validate_file_clean in Hc. destruct Hc as (C1 & C2 & C3 & _).
+      destruct (file_body_inv _ _ _ _ _ EF) as (_ & [[_ K]|(_ & _ & Lext & nv & kk & pp & K)]); [discriminate|].
+      injection K as -> -> -> ->. cbn [file_hdr_of file_hdr_gen f_ext] in *.
+      rewrite zlen_sub_tail in Lext by lia.
+      eapply file_body_prefix; [exact EF|cbn [file_hdr_of file_hdr_gen f_ext]; lia| | |].
+      - intros E. apply C3. exact E.
+      - cbn [file_hdr_of file_hdr_gen f_ext].
+        set (E := file_ext_of (sub (align8 off) (len - align8 off) data)) in *.
+        unfold sub. rewrite !zfirstn_zfirstn by lia.
+        change (zfirstn E (zskipn (align8 off) data')) with (sub (align8 off) E data').
+        change (zfirstn E (zskipn (align8 off) data)) with (sub (align8 off) E data).
+        eapply single_change_sub_same; [exact HS|lia|left; lia].
+      - pose proof (single_change_len _ _ _ HS). rewrite !zlen_sub_tail by lia. reflexivity. }
+    rewrite EF'' in H'. cbn [bind] in H'. rewrite E0 in H'.
+    destruct (files_loop (file_body nvar rs) n data' len pol1 (align8 off + file_ext f0))
+      as [[[r' p'] fs']| | |] eqn:ER'; cbn [bind] in H'; try discriminate.
+    apply Ok_inj in H'. subst r. cbn [fst].
+    destruct (IH _ _ _ _ _ _ _ _ _ _ _ _ ER Hcr Hat HS Hoi ltac:(lia) Hlen Hloc _ ER') as (f' & Hin & Hr').
+    cbn [fst] in Hin. exists f'. split; [right; exact Hin|exact Hr'].
+Qed.
+
+(* the bytes the volume-header part of the parser reads: the fixed header and block map
+   (HeaderLen bytes once validate accepts it) and the extended header *)
+Definition fv_hdr_extent (data : bytes) : Z :=
+  Z.max (rd 48 2 data) (if fv_has_ext data then rd 52 2 data + 20 else 0).
+
+Lemma rd_nonneg off w b : bytes_ok b = true -> 0 <= rd off w b.
+Proof. intros H. unfold rd. apply (le_dec_bound (sub off (Z.of_nat w) b)). apply bytes_ok_sub. exact H. Qed.
+
+(* a change beyond everything the header parse reads leaves the header parse unchanged *)
+Lemma fv_header_same b b' i blocks : single_change b i b' -> bytes_ok b = true ->
+  fv_hdr_extent b <= i -> 56 + 8 * (zlen blocks + 1) <= i ->
+  parse_blocks (Z.to_nat (zlen b) + 1) (zskipn 56 b) = Ok blocks ->
+  sub 16 16 b' = sub 16 16 b /\ rd 32 8 b' = rd 32 8 b /\ rd 44 4 b' = rd 44 4 b /\
+  fv_doff b' = fv_doff b /\
+  parse_blocks (Z.to_nat (zlen b') + 1) (zskipn 56 b') = Ok blocks.
+Proof.
+  intros HS Hok Hext Hblk HB. unfold fv_hdr_extent in Hext.
+  pose proof (zlen_nonneg blocks) as Nb.
+  pose proof (single_change_len _ _ _ HS) as Len.
+  assert (E16 : sub 16 16 b' = sub 16 16 b) by (eapply single_change_sub_same; [exact HS|lia|left; lia]).
+  assert (E32 : rd 32 8 b' = rd 32 8 b) by (eapply single_change_rd_same; [exact HS|lia|left; lia]).
+  assert (E44 : rd 44 4 b' = rd 44 4 b) by (eapply single_change_rd_same; [exact HS|lia|left; lia]).
+  assert (E48 : rd 48 2 b' = rd 48 2 b) by (eapply single_change_rd_same; [exact HS|lia|left; lia]).
+  assert (E52 : rd 52 2 b' = rd 52 2 b) by (eapply single_change_rd_same; [exact HS|lia|left; lia]).
+  assert (EH : fv_has_ext b' = fv_has_ext b) by (unfold fv_has_ext; rewrite E32, E52; reflexivity).
+  assert (EX : fv_extsize b' = fv_extsize b).
+  { unfold fv_extsize. rewrite EH, E52. destruct (fv_has_ext b) eqn:He; [|reflexivity].
+    pose proof (rd_nonneg 52 2 b Hok).
+    eapply single_change_rd_same; [exact HS|lia|left; lia]. }
+  assert (ED : fv_doff b' = fv_doff b) by (unfold fv_doff; rewrite EH, EX, E52, E48; reflexivity).
+  repeat (split; [assumption|]).
+  rewrite Len. eapply parse_blocks_prefix; [exact HB|].
+  change (zfirstn (8 * (zlen blocks + 1)) (zskipn 56 b')) with (sub 56 (8 * (zlen blocks + 1)) b').
+  change (zfirstn (8 * (zlen blocks + 1)) (zskipn 56 b)) with (sub 56 (8 * (zlen blocks + 1)) b).
+  eapply single_change_sub_same; [exact HS|lia|left; lia].
+Qed.
+
+Lemma files_loop_all_files nvar rs n : forall data len pol off files pol' fs,
+  files_loop (file_body nvar rs) n data len pol off = Ok (files, pol', fs) ->
+  Forall (fun f => exists h b k, f = NFile h b k) files.
+Proof.
+  induction n as [|n IH]; intros data len pol off files pol' fs; cbn [files_loop]; [discriminate|].
+  destruct (off + 24 <=? len); [|intros H; apply Ok_inj in H; injection H as <- _ _; constructor].
+  destruct (len <? align8 off + 24); [intros H; apply Ok_inj in H; injection H as <- _ _; constructor|].
+  destruct (file_body nvar rs pol _) as [[fo pol1]| | |] eqn:EF; cbn [bind]; try discriminate.
+  destruct fo as [f0|]; [|intros H; apply Ok_inj in H; injection H as <- _ _; constructor].
+  destruct (file_ext f0 =? 0); [discriminate|].
+  destruct (files_loop _ n data len pol1 _) as [[[r0 p0] fs0]| | |] eqn:ER; cbn [bind]; try discriminate.
+  intros H. apply Ok_inj in H. injection H as <- <- <-. constructor; [|eapply IH; exact ER].
+  destruct (file_body_inv _ _ _ _ _ EF) as (_ & [[_ K]|(_ & _ & _ & nv & kk & pp & K)]); [discriminate|].
+  injection K as -> _. eauto.
+Qed.
+
+(* a parsed volume that validates clean: the pieces used below *)
+Lemma clean_volume_facts nvar rs pol b fvoff res h buf kids pol' :
+  fv_body (file_body nvar rs) pol b fvoff res = Ok (NVol h buf kids, pol') ->
+  validate (NVol h buf kids) = Ok [] ->
+  exists blocks pol1 fs,
+    h = fv_hdr b fvoff res blocks fs /\ buf = sub 0 (rd 32 8 b) b /\
+    parse_blocks (Z.to_nat (zlen b) + 1) (zskipn 56 b) = Ok blocks /\
+    set_polarity pol (fv_polarity (rd 44 4 b)) = Some pol1 /\
+    64 <= rd 32 8 b <= zlen b /\ rd 48 2 b = 56 + 8 * (zlen blocks + 1) /\
+    Forall file_clean kids /\
+    (kids <> [] -> supported_fv (sub 16 16 b) = true /\
+       files_loop (file_body nvar rs) (Z.to_nat (zlen b) + 1) b (rd 32 8 b) pol1 (fv_doff b)
+         = Ok (kids, pol', fs)).
+Proof.
+  intros HP HV.
+  destruct (fv_body_inv _ _ _ _ _ _ _ HP) as (blocks & pol1 & kids0 & fs & Hn & HB & HPol & L0 & L1 & Hk).
+  injection Hn as -> -> ->.
+  apply validate_vol_node_clean in HV. destruct HV as [HV HK].
+  apply validate_vol_clean in HV. cbn [fv_hdr v_hdrlen v_blocks] in HV. destruct HV as (_ & V2 & _).
+  exists blocks, pol1, fs. repeat (split; [first [reflexivity|assumption|lia]|]).
+  split.
+  - destruct Hk as [[_ ->]|[_ HL]]; [constructor|].
+    pose proof (files_loop_all_files _ _ _ _ _ _ _ _ _ _ HL) as HA.
+    rewrite Forall_forall in *. intros f Hf. destruct (HA f Hf) as (fh & fb & fk & ->).
+    cbn [file_clean]. apply (validate_file_node_clean true fh fb fk). apply HK. exact Hf.
+  - intros Hne. destruct Hk as [[_ ->]|[Hs HL]]; [congruence|]. split; assumption.
+Qed.
+
+(* lifting a local detection result to the volume *)
+Lemma fv_file_detect nvar rs pol b b' fvoff res h buf kids pol' k f o i :
+  fv_body (file_body nvar rs) pol b fvoff res = Ok (NVol h buf kids, pol') ->
+  validate (NVol h buf kids) = Ok [] ->
+  bytes_ok b = true -> fv_hdr_extent b <= v_dataoff h ->
+  file_at (v_dataoff h) kids k = Some (f, o) ->
+  single_change b i b' -> o <= i ->
+  (forall pol2 r, file_body nvar rs pol2 (sub o (v_length h - o) b') = Ok r ->
+                  exists f', fst r = Some f' /\ reports f') ->
+  forall r, fv_body (file_body nvar rs) pol b' fvoff res = Ok r -> reports (fst r).
+Proof.
+  intros HP HV Hok Hext Hat HS Hoi Hloc [n' pol''] HP'.
+  destruct (clean_volume_facts _ _ _ _ _ _ _ _ _ _ HP HV)
+    as (blocks & pol1 & fs & -> & -> & HB & HPol & L1 & V2 & Hcl & Hk).
+  cbn [fv_hdr v_dataoff v_length] in *.
+  assert (Hne : kids <> []) by (intros ->; discriminate).
+  destruct (Hk Hne) as [Hs HL].
+  assert (Hpos : forall g, In g kids -> 0 <= file_ext g).
+  { intros g Hg. rewrite Forall_forall in Hcl. pose proof (file_clean_ext g (Hcl g Hg)). lia. }
+  pose proof (file_at_ge kids _ _ _ _ Hpos Hat) as Hge.
+  assert (Hd0 : 0 <= fv_doff b).
+  { assert (0 <= rd 48 2 b) by (apply rd_nonneg; exact Hok).
+    unfold fv_hdr_extent in Hext. lia. }
+  assert (Hx : fv_hdr_extent b <= i) by lia.
+  assert (Hblk : 56 + 8 * (zlen blocks + 1) <= i) by (unfold fv_hdr_extent in Hx; lia).
+  destruct (fv_header_same b b' i blocks HS Hok Hx Hblk HB) as (E16 & E32 & E44 & ED & HB').
+  destruct (fv_body_inv _ _ _ _ _ _ _ HP') as (blocks' & pol1' & kids' & fs' & -> & HB'' & HPol' & _ & _ & Hk').
+  rewrite E16, E32, E44, ED in *.
+  assert (pol1' = pol1) by congruence. subst pol1'.
+  destruct Hk' as [[Hs' _]|[_ HL']]; [congruence|].
+  pose proof (single_change_len _ _ _ HS) as Len. rewrite Len in HL'.
+  destruct (files_loop_detect nvar rs _ b b' _ _ _ _ _ _ k f o i HL Hcl Hat HS Hoi Hd0 ltac:(lia) Hloc _ HL')
+    as (f' & Hin & Hr').
+  cbn [fst] in *. eapply reports_child_vol; eauto.
 Qed.
